@@ -47,8 +47,12 @@ impl MemBM25Scorer {
     pub fn update(&mut self, tokens: &Tokens) {
         self.total_tokens += tokens.len() as u64;
         self.num_docs += 1;
+        // `token_docs` counts the documents that contain a token, not its occurrences
+        let mut seen = std::collections::HashSet::new();
         for token in tokens {
-            *self.token_docs.entry(token.clone()).or_insert(0) += 1;
+            if seen.insert(token) {
+                *self.token_docs.entry(token.clone()).or_insert(0) += 1;
+            }
         }
     }
 
